@@ -11,6 +11,7 @@
 (* A sample record carries                                                 *)
 (*   k      +1 (dispatch) or -1 (completion)                               *)
 (*   t      time (ms in traces; constant 0 in the code-shaped model)       *)
+(*   u      microseconds of the instant within the ms t (0..999)           *)
 (*   lo,hi  floor / ceiling of the published load in units of 1/sc         *)
 (*          (so  load >= maxL  <=>  lo >= maxL  and  load <= minL <=> hi <= minL *)
 (*          exactly, band edges being integers in these units)             *)
@@ -22,9 +23,11 @@
 (* All other events carry t and the gauges a,i after the event.            *)
 (*                                                                         *)
 (* The state is one record `ab`; the configuration `acfg` =                *)
-(*   [minS, maxS, minL, maxL, sc, win, tol, btol]                          *)
+(*   [minS, maxS, minL, maxL, sc, win, tol, btol, ref, rtol]               *)
 (* (sizes, band in 1/sc units, EMA window in time units, settle and        *)
-(* between-ness tolerances in 1/sc units).                                 *)
+(* between-ness tolerances in 1/sc units; ref = 1: the reference smoothing *)
+(* is computed and compared (traces; 0 in the untimed code-shaped model);  *)
+(* rtol: rounding of the recorded avg to 1/sc units + float arithmetic).   *)
 (* XCheck(s, ...) returns "ok" or the first failing clause, evaluated in   *)
 (* the pre-state s; XUpd(s, ...) is the unguarded successor state.         *)
 (*                                                                         *)
@@ -50,7 +53,16 @@
 (*                 between the previous avg and the reference outstanding  *)
 (*                 count, strictly closer to it when >= 1/5 window passed  *)
 (*                 (this validates the EMA abstraction of Aperture.tla     *)
-(*                 against scales.varz.Ema on every sample).               *)
+(*                 against scales.varz.Ema on every sample).  With ref = 1 *)
+(*                 also: avg lies in the enclosure of the reference        *)
+(*                 smoothing - the window-`win` exponential average of the *)
+(*                 outstanding count recomputed here from the recorded     *)
+(*                 get/put events and their times (microseconds), see      *)
+(*                 "reference smoothing" below - widened by rtol only.  A  *)
+(*                 smoothing that ignores, loses or stretches elapsed time *)
+(*                 (at any granularity of time) fails here, and grow /     *)
+(*                 shrink / settles, which read the published load, are    *)
+(*                 thereby tied to the real smoothed load.                 *)
 (*  C06.settles    (only if maxL > 2*minL) at a sample after >= 10 windows *)
 (*                 of steady traffic and no open pending the load is not   *)
 (*                 out of band (beyond tol) while the size could move.     *)
@@ -70,7 +82,8 @@ AbsV(x) == IF x < 0 THEN -x ELSE x
 
 AState(S, a, i, t) ==
   [S |-> S, gA |-> a, gI |-> i, tot |-> 0, opening |-> {}, settling |-> {}, T |-> t, sampT |-> t,
-   avg |-> 0, avgKnown |-> TRUE, stSince |-> t, stL |-> -1, cntL |-> -1]
+   avg |-> 0, avgKnown |-> TRUE, stSince |-> t, stL |-> -1, cntL |-> -1,
+   sampU |-> 0, refKnown |-> FALSE, rlo |-> 0, rhi |-> 0]
 
 AInit(cfg, S, a, i, t) == acfg = cfg /\ ab = AState(S, a, i, t)
 
@@ -137,6 +150,95 @@ QuietCheck(s, t, a, i, proj, act, idl) ==
   ELSE "ok"
 QuietUpd(s, t, a, i, proj, act, idl) == [Gauges(s, t, a, i) EXCEPT !.settling = {}]
 
+\* ---------------------------------------------------------------- reference smoothing
+\* The "smoothed number of outstanding requests" of the statement, computed here from the recorded
+\* get/put events and their times alone (nothing of the code's own average enters it): an exponential
+\* moving average over the window acfg.win of the outstanding count, sampled at every get/put,
+\*     first sample:  ref = X          later:  ref' = X + (ref - X) * exp(-dt / win)
+\* with X the outstanding count after the event and dt the time since the previous get/put.
+\* TLC has 32-bit integers and no reals, so the reference is an *enclosure* [rlo, rhi] in units of
+\* 1/RSC request that provably contains the real-valued EMA: exp(-dt/win) is enclosed in units of 2^-30
+\* (Taylor polynomial of a halved argument, squared back; every rounding directed outwards) and the
+\* products are rounded down for rlo, up for rhi.  The enclosure is self-correcting (an error e of one
+\* step is multiplied by exp(-dt/win) at every later step); its width stays below about
+\* (2 units + |ref - X| * 4e-9) / (1 - exp(-dt/win)): measured < 0.0025 request with 30 requests outstanding and
+\* 50 us between events, < 0.0005 request from 0.4 ms on, < 0.00001 at 0.1 s.  Times: ms in `t` plus the
+\* microseconds within the ms in `u`; win * 1000 must stay below 8000000 (Frac30) - the window is 5 s.
+RSC == 33554432      \* 2^25
+ONE == 1073741824    \* 2^30
+P15 == 32768         \* 2^15
+MaxTot == 31         \* MaxTot * RSC < 2^30
+WinCut == 22         \* exp(-22) < 2^-30
+
+\* n * w / 2^30 for 0 <= n, w <= 2^30: <<floor, remainder>> without leaving 31 bits
+MulP(n, w) ==
+  LET n1 == n \div P15
+      n0 == n % P15
+      w1 == w \div P15
+      w0 == w % P15
+      mid == n1 * w0 + n0 * w1
+      low == (mid % P15) * P15 + n0 * w0
+  IN <<n1 * w1 + mid \div P15 + low \div ONE, low % ONE>>
+MulDn(n, w) == MulP(n, w)[1]
+MulUp(n, w) == LET p == MulP(n, w) IN p[1] + IF p[2] = 0 THEN 0 ELSE 1
+
+\* floor(r * 2^30 / d) for 0 <= r < d <= 8000000 (long division, 8 + 8 + 8 + 6 bits)
+Frac30(r, d) ==
+  LET a1 == r * 256
+      a2 == (a1 % d) * 256
+      a3 == (a2 % d) * 256
+      a4 == (a3 % d) * 64
+  IN (((a1 \div d) * 256 + a2 \div d) * 256 + a3 \div d) * 64 + a4 \div d
+
+RECURSIVE SqDn(_, _), SqUp(_, _)
+SqDn(w, k) == IF k = 0 THEN w ELSE SqDn(MulDn(w, w), k - 1)
+SqUp(w, k) == IF k = 0 THEN w ELSE SqUp(MulUp(w, w), k - 1)
+
+\* enclosure [lo, hi] (units of 2^-30) of exp(-dt / d), dt >= 0 and d > 0 in the same unit
+ExpB(dt, d) ==
+  IF dt = 0 THEN [lo |-> ONE, hi |-> ONE]
+  ELSE IF dt \div d >= WinCut THEN [lo |-> 0, hi |-> 1]
+  ELSE LET n == dt \div d
+           f == Frac30(dt % d, d)                \* dt/d in [n + f/2^30, n + (f+1)/2^30)
+           Y(k) == n * 2^(30 - k) + f \div 2^k    \* floor(2^30 * dt / (d * 2^k))
+           kmin == IF n = 0 THEN 0 ELSE 7
+           k == CHOOSE j \in kmin..11 : Y(j) < 16777216 /\ \A i \in kmin..(j - 1) : Y(i) >= 16777216
+           yl == Y(k)                            \* y = dt / (d * 2^k) <= 1/64, in [yl, yh]
+           yh == yl + 1
+           \* 1 - y + y^2/2 - y^3/6 <= exp(-y) <= 1 - y + y^2/2 - y^3/6 + y^4/24, exp(-y) decreasing in y
+           h2 == MulDn(yh, yh)
+           h3 == MulUp(MulUp(yh, yh), yh)
+           L == ONE - yh + h2 \div 2 - (h3 + 5) \div 6
+           l2 == MulUp(yl, yl)
+           l3 == MulDn(MulDn(yl, yl), yl)
+           l4 == MulUp(MulUp(l2, yl), yl)
+           U == ONE - yl + (l2 + 1) \div 2 - l3 \div 6 + (l4 + 23) \div 24
+       IN [lo |-> SqDn(L, k), hi |-> SqUp(Min2(U, ONE), k)]
+
+\* the enclosure after a get/put that leaves tot1 requests outstanding at time (t ms, u us)
+RefNext(s, tot1, t, u) ==
+  LET X == tot1 * RSC
+      dms == t - s.sampT
+      dt == IF dms >= WinCut * acfg.win THEN WinCut * acfg.win * 1000 ELSE dms * 1000 + (u - s.sampU)
+      w == ExpB(dt, acfg.win * 1000)
+  IN IF ~s.refKnown THEN [lo |-> X, hi |-> X]
+     ELSE [lo |-> IF s.rlo >= X THEN X + MulDn(s.rlo - X, w.lo) ELSE X - MulUp(X - s.rlo, w.hi),
+           hi |-> IF s.rhi >= X THEN X + MulUp(s.rhi - X, w.hi) ELSE X - MulDn(X - s.rhi, w.lo)]
+
+\* floor / ceiling of r * sc / RSC (r in units of 1/RSC, result in units of 1/sc; sc <= 32768)
+ToSc(r) ==
+  LET m == (r \div P15) * acfg.sc + ((r % P15) * acfg.sc) \div P15
+      exact == ((r % P15) * acfg.sc) % P15 = 0 /\ m % 1024 = 0
+  IN <<m \div 1024, IF exact THEN m \div 1024 ELSE m \div 1024 + 1>>
+
+RefOn == acfg.ref = 1
+RefClock(s, t, u) == IF RefOn /\ t = s.sampT /\ u < s.sampU THEN "harness.clockMonotone" ELSE "ok"
+RefRange(s, k) == IF RefOn /\ s.tot + k > MaxTot THEN "harness.refRange" ELSE "ok"
+WithRef(s1, s, tot1, t, u) ==
+  IF RefOn
+  THEN LET r == RefNext(s, tot1, t, u) IN [s1 EXCEPT !.rlo = r.lo, !.rhi = r.hi, !.refKnown = TRUE, !.sampU = u]
+  ELSE s1
+
 \* ---------------------------------------------------------------- samples
 \* load at an empty aperture is infinite: >= maxL whatever the band
 EmptyGrowOk(s, a) == (s.gA = 0 /\ s.gI > 0 /\ acfg.maxS > 0) => a > 0
@@ -149,13 +251,16 @@ NoMemberCheck(s, t, a, i) ==
 NoMemberUpd(s, t, a, i) == Gauges(s, t, a, i)
 
 \* a get/put for which no load was published (active size 0): the average moves unobserved
-BlindCheck(s, k, t, a, i) ==
+BlindCheck(s, k, t, u, a, i) ==
   IF ClockCheck(s, t) # "ok" THEN ClockCheck(s, t)
+  ELSE IF RefClock(s, t, u) # "ok" THEN RefClock(s, t, u)
   ELSE IF s.tot + k < 0 THEN "harness.negativeTotal"
+  ELSE IF RefRange(s, k) # "ok" THEN RefRange(s, k)
   ELSE IF ~EmptyGrowOk(s, a) THEN "C06.grow"
   ELSE FloorCheck(s, a)
-BlindUpd(s, k, t, a, i) ==
-  [Unsteady(Gauges(s, t, a, i), t) EXCEPT !.tot = s.tot + k, !.avgKnown = FALSE, !.sampT = t]
+BlindUpd(s, k, t, u, a, i) ==
+  WithRef([Unsteady(Gauges(s, t, a, i), t) EXCEPT !.tot = s.tot + k, !.avgKnown = FALSE, !.sampT = t],
+          s, s.tot + k, t, u)
 
 Track(s, ev) ==
   LET s0 == Adv(s, ev.t)
@@ -176,6 +281,8 @@ SmoothedOk(s, ev) ==
      /\ s.avgKnown =>
           /\ Min2(p, X) - acfg.btol <= ev.avg /\ ev.avg <= Max2(p, X) + acfg.btol
           /\ (dt * 5 >= acfg.win /\ AbsV(p - X) * 10 >= acfg.sc) => AbsV(ev.avg - X) < AbsV(p - X)
+     /\ RefOn => LET r == RefNext(s, s.tot + ev.k, ev.t, ev.u)
+                 IN ToSc(r.lo)[1] - acfg.rtol <= ev.avg /\ ev.avg <= ToSc(r.hi)[2] + acfg.rtol
 
 SettledOk(s, ev) ==
   LET st == Track(s, ev)
@@ -186,7 +293,9 @@ SettledOk(s, ev) ==
 
 SampleCheck(s, ev) ==
   IF ClockCheck(s, ev.t) # "ok" THEN ClockCheck(s, ev.t)
+  ELSE IF RefClock(s, ev.t, ev.u) # "ok" THEN RefClock(s, ev.t, ev.u)
   ELSE IF s.tot + ev.k < 0 THEN "harness.negativeTotal"
+  ELSE IF RefRange(s, ev.k) # "ok" THEN RefRange(s, ev.k)
   ELSE IF ev.sB <= 0 THEN "harness.sampleWithoutActive"
   ELSE IF ~SmoothedOk(s, ev) THEN "C06.smoothed"
   ELSE IF ev.sB >= acfg.maxS /\ ev.a > ev.sB THEN "C06.ceiling"
@@ -197,8 +306,9 @@ SampleCheck(s, ev) ==
   ELSE "ok"
 
 SampleUpd(s, ev) ==
-  [Track(s, ev) EXCEPT !.tot = s.tot + ev.k, !.avg = ev.avg, !.avgKnown = TRUE, !.sampT = ev.t,
-                       !.gA = ev.a, !.gI = ev.i, !.T = ev.t]
+  WithRef([Track(s, ev) EXCEPT !.tot = s.tot + ev.k, !.avg = ev.avg, !.avgKnown = TRUE, !.sampT = ev.t,
+                               !.gA = ev.a, !.gI = ev.i, !.T = ev.t],
+          s, s.tot + ev.k, ev.t, ev.u)
 
 \* Steady-state predicates used by the temporal property of the code-shaped model
 InBand(lo, hi) == hi > acfg.minL /\ lo < acfg.maxL
